@@ -5,6 +5,7 @@ open Pcore.Tls
 #print axioms C14_restore
 #print axioms C14_restore_doctx
 #print axioms C14_restore_do
+#print axioms C14_restore_try
 #print axioms C14_restore_loader
 #print axioms C14_confined
 #print axioms C14_fork_view
@@ -18,6 +19,7 @@ open Pcore.Tls
 #print axioms C14_released
 #print axioms C14_released_goroutine
 #print axioms C14_before_not_released
+#print axioms C14_before_try_not_released
 #print axioms C14_before_nested_do_not_restored
 #print axioms C14_before_fork_copy_late
 #print axioms C14_before_fork_shares_context
